@@ -30,6 +30,17 @@ fn len_of(code: usize, i: usize) -> usize {
 /// i is octal digit i. `LENS`: payload length (bytes, < 64) of arrival position i
 /// is base-64 digit i.
 pub fn reassembly<const N: usize, const IDS: usize, const LENS: usize>() {
+    reassembly_impl::<N, IDS, LENS, true>()
+}
+
+/// Quick-tier form: same, but a well-formed set is only required to give `Ok`
+/// or `BadPayload` (never a chunk-level error); the comparison with the direct
+/// decoding of the concatenation is left to `reassembly` (thorough tier).
+pub fn reassembly_lite<const N: usize, const IDS: usize, const LENS: usize>() {
+    reassembly_impl::<N, IDS, LENS, false>()
+}
+
+fn reassembly_impl<const N: usize, const IDS: usize, const LENS: usize, const DIRECT: bool>() {
     // a 56-byte zero-channel packet skeleton: masks assigned zero (so that the
     // decoder's length rule can be met), every other byte symbolic
     let mut packet: [u8; 64] = sym::bytes::<64>();
@@ -132,6 +143,7 @@ pub fn reassembly<const N: usize, const IDS: usize, const LENS: usize>() {
     let r = PwbV2Packet::try_from(chunks);
     witness!(p && r.is_ok(), "well-formed-set-decoded");
     witness!(p && r.is_err(), "well-formed-set-bad-payload");
+    let _ = total;
     witness!(!p, "faulty-set");
     if !p {
         check!(
@@ -165,6 +177,11 @@ pub fn reassembly<const N: usize, const IDS: usize, const LENS: usize>() {
         if same_board && same_chip && ids_ok && flags_ok && !lens_ok {
             check!(matches!(r, Err(E::PayloadLengthMismatch { .. })), "C04:rule:non-final-size");
         }
+    } else if !DIRECT {
+        check!(
+            matches!(r, Ok(_) | Err(E::BadPayload(_))),
+            "C04:well-formed-set-not-rejected-at-chunk-level"
+        );
     } else {
         // concatenation in chunk-id order = packet[..total]
         let direct = PwbV2Packet::try_from(&packet[..total]);
